@@ -321,8 +321,15 @@ def run(tier):
             broken.append(Broken("correspondence", "K7 harness (parse_single path)", out[-1200:]))
             break
         runs2[hs] = {r["id"]: r for r in json.loads(out.split("@@RESULT@@", 1)[1])["results"]}
+    # "independent of what was parsed before": the public corpus entry point Parser.parse called several times in ONE process with the
+    # same instruction names and DIFFERENT texts (a corrected or patched shortcode re-parsed); every call is compared with a fresh
+    # parse of the same text by the reused Compiler.parser
+    hist_texts = [t for t in tie_texts[:12]] + ["{ RdV = RsV + RtV; }", "{ RdV = RsV - RtV; }", "{ RdV = RsV - RtV * RuV; }", "{ RdV = ; }", "{ RdV = (RsV - RtV) * RuV; }"]
+    rnd.shuffle(hist_texts)
+    hist_fail = parse_history(hist_texts, broken)
     wall = round(time.time() - t0, 1)
     fails, kn = [], {}
+    fails += hist_fail
     hs0 = next(iter(runs2), None)
     for j in jobs2:
         what = j.get("code") or ("shipped behaviour " + j["name"])
@@ -396,6 +403,51 @@ def run(tier):
                             "exactly the generating AST",
                     "hash_seeds": seeds, "parse_single_path": {"texts": len(tie_texts), "shipped_behaviours": len(csample), "hash_seeds": list(runs2)}, "wall_s": wall, "samples": [{"text": cases[0][0], "expected": cases[0][1]}], "broken": [vars(x) for x in broken]}
     return res.finish()
+
+
+PARSE_HIST = r"""
+import json, sys, contextlib, io, multiprocessing
+import rzilcompiler.Parser as PM
+from rzilcompiler.Parser import Parser
+from rzilcompiler.ArchEnum import ArchEnum
+from rzilcompiler.Compiler import Compiler
+req = json.load(sys.stdin)
+PM.Pool = (lambda: multiprocessing.get_context("fork").Pool(2))
+out = []
+with contextlib.redirect_stdout(io.StringIO()), contextlib.redirect_stderr(io.StringIO()):
+    c = Compiler(ArchEnum.HEXAGON)
+    for k, text in enumerate(req["texts"]):
+        names = ["T_a", "T_b"] if k % 2 == 0 else ["T_b", "T_a"]
+        res = Parser.parse({names[0]: [text], names[1]: [req["texts"][(k + 1) % len(req["texts"])]]})
+        for nm, tx in ((names[0], text), (names[1], req["texts"][(k + 1) % len(req["texts"])])):
+            p = res.get(nm)
+            try:
+                ref = str(c.parser.parse(tx)); ref_ok = True
+            except Exception as e:
+                ref = type(e).__name__; ref_ok = False
+            got_ok = p is not None and p.exception is None
+            out.append({"call": k, "name": nm, "text": tx, "ok": got_ok, "ref_ok": ref_ok,
+                        "same": (got_ok == ref_ok) and (not got_ok or (len(p.asts) == 1 and str(p.asts[0]) == ref)) and (p is None or list(p.behaviors) == [tx]),
+                        "got": (str(p.asts[0])[:300] if got_ok and p.asts else (p.exception.name if p is not None and p.exception else None)), "ref": ref[:300]})
+json.dump(out, sys.stdout)
+"""
+
+
+def parse_history(texts, broken):
+    rc, out = common.sh([common.PY, "-c", PARSE_HIST], cwd=common.REPO, env=common.py_env(), input=json.dumps({"texts": texts}), timeout=1200)
+    try:
+        rows = json.loads(out[out.index("[{"):])
+    except Exception:
+        broken.append(Broken("correspondence", "K7 harness (Parser.parse history)", out[-1200:]))
+        return []
+    fails = []
+    for r in rows:
+        if not r["same"]:
+            fails.append({"text": r["text"], "why": "Parser.parse (public corpus entry point) returns for this text, after earlier calls in the same process with the same "
+                                                    "instruction name, a result that differs from a fresh parse of the text",
+                          "expected": r["ref"], "got": r["got"], "tag": "parse-history", "history": texts[:r["call"] + 2], "name": r["name"]})
+            break
+    return fails
 
 
 def replay(path):
